@@ -5190,7 +5190,14 @@ EmitOp_MemBaseNoImm_Rn5:
   goto EmitOp;
 
 EmitOp_MemBaseIndex_Rn5_Rm16:
-  if (!rm_rel->as<Mem>().has_base_reg()) {
+  // [Xn|SP, Rm {, extend {#amount}}] - the base is a 64-bit register (or SP) and there is no write-back form.
+  if (!check_mem_base(rm_rel->as<Mem>()) || rm_rel->as<Mem>().is_pre_or_post()) {
+    goto InvalidAddress;
+  }
+
+  // LSL and SXTX (option<0> == 1, bit 13 of the opcode) use the whole X register, a W index register cannot provide it.
+  // (An X register is accepted with UXTW/SXTW as well - only the register number is encoded.)
+  if (rm_rel->as<Mem>().index_type() == RegType::kGp32 && (opcode.get() & B(13))) {
     goto InvalidAddress;
   }
 
